@@ -30,6 +30,7 @@ type vpC04Cand struct {
 	ins      []*vpLUTXO
 	rejected bool
 	pruned   bool // displaced by a finalization-path takeover of its input
+	remove   bool // a node removal (keys on a node-remove output)
 }
 
 func vpC04Pool(n int) []crypto.Key {
@@ -74,9 +75,39 @@ func vpC04MakeCand(t *rapid.T, l *vpLedger, pool []crypto.Key, u *vpLUTXO) *vpC0
 	return c
 }
 
+// vpC04MakeRemove builds the removal of genesis node `which`: its pledge goes
+// back through a node-remove output, which carries one-time keys like a script
+// output does (so does a custodian-update output); the keys come from the pool.
+func vpC04MakeRemove(t *rapid.T, l *vpLedger, pool []crypto.Key, which int) *vpC04Cand {
+	gtx := l.GenesisTxs[which]
+	u := l.UTXOs[fmt.Sprintf("%s:%d", gtx.PayloadHash(), 0)]
+	if u == nil {
+		return nil
+	}
+	nk := rapid.IntRange(1, 3).Draw(t, "remove_nk")
+	tx := l.BuildSpend(common.XINAssetId, []*vpLUTXO{u}, []vpLOut{{Type: common.OutputTypeNodeRemove, Owners: vpLRange(nk), Threshold: 1, Amount: u.Amount}}, nil, gtx.Extra)
+	c := &vpC04Cand{ins: []*vpLUTXO{u}, remove: true}
+	seen := map[crypto.Key]bool{}
+	o := tx.Outputs[0]
+	for k := range o.Keys {
+		if rapid.IntRange(0, 3).Draw(t, "use_pool") != 0 {
+			pk := pool[rapid.IntRange(0, len(pool)-1).Draw(t, "pool_key")]
+			o.Keys[k] = &pk
+		}
+		if seen[*o.Keys[k]] {
+			c.selfDup = true
+		}
+		seen[*o.Keys[k]] = true
+		c.keys = append(c.keys, *o.Keys[k])
+	}
+	c.ver = (&common.SignedTransaction{Transaction: *tx}).AsVersioned()
+	c.hash = c.ver.PayloadHash()
+	return c
+}
+
 func TestVP_C04_ghost_binding(t *testing.T) {
-	c := kit.New(t, "C04", "rapid: pool of 4..20 one-time output keys; 3..10 candidate transfers (distinct inputs) whose output keys are drawn from the pool with overlaps inside and across transactions; drawn sequence of validate (admission path), direct key reservation (ordinary and finalization-path flag), unvalidated persist, finalize; oracle: model ghost[key] -> first binder; a key is never rebound to another transaction, a transaction repeating a key in its own outputs is rejected, finalizing a transaction whose key belongs to another fails with an unchanged database dump, ReadGhostKeyLock equals the model after every step; the three hard-coded historical hashes are checked as a fixed table; non-trivial = history with a cross-transaction reuse attempt after a binding and a finalize-time conflict; distinct by trace")
-	c.Require("cross-reuse-rejected", "self-dup-rejected", "finalize-conflict", "fork-flag-no-override", "bound-by-validate", "bound-by-finalize", "holder-displaced")
+	c := kit.New(t, "C04", "rapid: pool of 4..20 one-time output keys; 3..10 candidates (transfers with script outputs, and in a third of the histories one or two node removals whose node-remove output carries the keys; distinct inputs) whose output keys are drawn from the pool with overlaps inside and across transactions; drawn sequence of validate (admission path), direct key reservation (ordinary and finalization-path flag), unvalidated persist, finalize; oracle: model ghost[key] -> first binder; a key is never rebound to another transaction, a transaction repeating a key in its own outputs is rejected, finalizing a transaction whose key belongs to another fails with an unchanged database dump, ReadGhostKeyLock equals the model after every step; the three hard-coded historical hashes are checked as a fixed table; non-trivial = history with a cross-transaction reuse attempt after a binding and a finalize-time conflict; distinct by trace")
+	c.Require("cross-reuse-rejected", "self-dup-rejected", "finalize-conflict", "fork-flag-no-override", "bound-by-validate", "bound-by-finalize", "holder-displaced", "node-remove-candidate", "finalize-conflict-node-remove-output")
 	kit.SetChecks(kit.N(150, 6000))
 	rapid.Check(t, func(t *rapid.T) {
 		l := vpLNewLedger(7, "c04", 4)
@@ -94,7 +125,15 @@ func TestVP_C04_ghost_binding(t *testing.T) {
 		btc := l.Assets[1].Id
 		free := l.Unspent(&btc, true, true)
 		var cands []*vpC04Cand
+		var classes0 []string
 		for i := 0; i < ncand; i++ {
+			if i < 2 && rapid.IntRange(0, 2).Draw(t, "remove_cand") == 0 {
+				if rc := vpC04MakeRemove(t, l, pool, i); rc != nil {
+					cands = append(cands, rc)
+					classes0 = append(classes0, "node-remove-candidate")
+					continue
+				}
+			}
 			cands = append(cands, vpC04MakeCand(t, l, pool, free[i]))
 		}
 		ghost := map[crypto.Key]crypto.Hash{}
@@ -200,7 +239,7 @@ func TestVP_C04_ghost_binding(t *testing.T) {
 					bind(cd)
 				}
 			case op == 7: // a rival spend of the same input arrives on the finalization path and displaces the pending candidate
-				if !cd.locked || cd.final || cd.pruned {
+				if !cd.locked || cd.final || cd.pruned || cd.remove {
 					continue
 				}
 				rtx := l.BuildSpend(cd.ins[0].Asset, cd.ins, []vpLOut{{Type: common.OutputTypeScript, Owners: []int{1}, Threshold: 1, Amount: cd.ins[0].Amount}}, nil, []byte(fmt.Sprintf("rival-%d", i)))
@@ -242,6 +281,9 @@ func TestVP_C04_ghost_binding(t *testing.T) {
 						t.Fatalf("failed finalization changed the store: %v", d)
 					}
 					classes["finalize-conflict"] = true
+					if cd.remove {
+						classes["finalize-conflict-node-remove-output"] = true
+					}
 				} else {
 					if err != nil || pan != nil {
 						t.Fatalf("finalization failed: %v %v", err, pan)
@@ -258,6 +300,7 @@ func TestVP_C04_ghost_binding(t *testing.T) {
 		for k := range classes {
 			cl = append(cl, k)
 		}
+		cl = append(cl, classes0...)
 		sort.Strings(cl)
 		c.Case(fmt.Sprint(trace), classes["cross-reuse-rejected"] && classes["finalize-conflict"], cl...)
 		if len(trace) > 10 {
